@@ -1142,7 +1142,6 @@ func constantFloat(v constant.Value) (float64, bool) {
 // squash removes all whitespace.
 func squash(s string) string { return strings.Join(strings.Fields(s), "") }
 
-
 // E11SweepFlip: Transform negates the sweep flag exactly when the matrix reverses orientation.
 func E11SweepFlip(c *core.Ctx, r *core.Report) {
 	r.Rule("E11.sweep-flip", "Path.Transform negates an arc's sweep flag under a condition on the sign of the determinant of the matrix: the product of the two axis scales returned by m.Decompose() (or m.Det()) compared with zero; the diagonal entries of the matrix do not decide orientation (rotations and shears move the sign off the diagonal)")
@@ -1330,4 +1329,228 @@ func E11ReuseAfterEscape(c *core.Ctx, r *core.Report, fileSuffix string) {
 	}
 	r.Count("E11.slice-resets", sites)
 	r.Floor("E11.slice-resets", 1)
+}
+
+// E11BreakWidth: the width recorded for a line that ends at a penalty includes the penalty's width.
+func E11BreakWidth(c *core.Ctx, r *core.Report) {
+	r.Rule("E11.break-width", "linebreaker: the natural width of a line ending at item b is the running sum W plus, when item b is a penalty, the penalty's width (the hyphen that is shown at the break). computeAdjustmentRatio fits the line with that width; every Breakpoint created for a feasible break in mainLoop records the same quantity in Width (ToText positions right-aligned and centred lines from it), by the same guarded addition on the same item index as its Position. The overflow break (created after `overflows = true`) is exempt: Overflows is reported for it")
+	p := c.MustPkg("text")
+	info := p.TypesInfo
+	// the running-sum field: selector W on the receiver
+	isField := func(e ast.Expr, recv types.Object, name string) bool {
+		sel, ok := core.Unparen(e).(*ast.SelectorExpr)
+		if !ok || sel.Sel.Name != name {
+			return false
+		}
+		id, ok := core.Unparen(sel.X).(*ast.Ident)
+		return ok && core.ObjOf(info, id) == recv
+	}
+	// items[idx].Field on the receiver
+	itemField := func(e ast.Expr, recv types.Object, field string) (ast.Expr, bool) {
+		sel, ok := core.Unparen(e).(*ast.SelectorExpr)
+		if !ok || sel.Sel.Name != field {
+			return nil, false
+		}
+		ie, ok := core.Unparen(sel.X).(*ast.IndexExpr)
+		if !ok || !isField(ie.X, recv, "items") {
+			return nil, false
+		}
+		return ie.Index, true
+	}
+	// penaltyAdd finds, in a statement list, `if recv.items[IDX].Type == PenaltyType { V += recv.items[IDX].Width }` for variable v
+	penaltyAdd := func(list []ast.Stmt, recv, v types.Object) (string, bool) {
+		for _, s := range list {
+			is, ok := s.(*ast.IfStmt)
+			if !ok || is.Else != nil || len(is.Body.List) != 1 {
+				continue
+			}
+			be, ok := core.Unparen(is.Cond).(*ast.BinaryExpr)
+			if !ok || be.Op != token.EQL || core.ConstName(info, be.Y) != "PenaltyType" {
+				continue
+			}
+			idx, ok := itemField(be.X, recv, "Type")
+			if !ok {
+				continue
+			}
+			as, ok := is.Body.List[0].(*ast.AssignStmt)
+			if !ok || as.Tok != token.ADD_ASSIGN || len(as.Lhs) != 1 {
+				continue
+			}
+			id, ok := as.Lhs[0].(*ast.Ident)
+			if !ok || core.ObjOf(info, id) != v {
+				continue
+			}
+			idx2, ok := itemField(as.Rhs[0], recv, "Width")
+			if !ok || types.ExprString(idx) != types.ExprString(idx2) {
+				continue
+			}
+			if iid, ok := core.Unparen(idx).(*ast.Ident); ok {
+				return "param:" + itoaObj(info, iid), true
+			}
+		}
+		return "", false
+	}
+	_ = penaltyAdd
+	// reference: computeAdjustmentRatio
+	ref := core.MustFuncDecl(p, "linebreaker.computeAdjustmentRatio")
+	refRecv := recvObj(info, ref)
+	r.Func("text.linebreaker.computeAdjustmentRatio")
+	refOK := false
+	for _, s := range ref.Body.List {
+		as, ok := s.(*ast.AssignStmt)
+		if !ok || as.Tok != token.DEFINE || len(as.Lhs) != 1 {
+			continue
+		}
+		sub, ok := core.Unparen(as.Rhs[0]).(*ast.BinaryExpr)
+		if !ok || sub.Op != token.SUB || !isField(sub.X, refRecv, "W") {
+			continue
+		}
+		v := core.ObjOf(info, as.Lhs[0].(*ast.Ident))
+		if _, ok := penaltyAdd(ref.Body.List, refRecv, v); ok {
+			refOK = true
+		}
+	}
+	if refOK {
+		r.OK("E11.break-width", "text.linebreaker.computeAdjustmentRatio|line width", c.Pos(ref.Pos()), "L := W - active.W; if items[b].Type == PenaltyType { L += items[b].Width }")
+	} else {
+		r.Fail("E11.break-width", "text.linebreaker.computeAdjustmentRatio|line width", c.Pos(ref.Pos()), "the fitted line width is no longer the running sum plus the guarded penalty width; the rule's reference shape is gone")
+	}
+	// Breakpoint literals in mainLoop and in Linebreak (which holds the linebreaker in a local)
+	n := 0
+	for _, fname := range []string{"linebreaker.mainLoop", "Linebreak"} {
+		fd := core.MustFuncDecl(p, fname)
+		recv := recvObj(info, fd)
+		if recv == nil {
+			ast.Inspect(fd.Body, func(m ast.Node) bool {
+				if as, ok := m.(*ast.AssignStmt); ok && as.Tok == token.DEFINE && len(as.Lhs) == 1 && recv == nil {
+					if id, ok := as.Lhs[0].(*ast.Ident); ok {
+						if o := core.ObjOf(info, id); o != nil {
+							if pt, ok := o.Type().(*types.Pointer); ok {
+								if nt, ok := pt.Elem().(*types.Named); ok && nt.Obj().Name() == "linebreaker" {
+									recv = o
+								}
+							}
+						}
+					}
+				}
+				return true
+			})
+		}
+		if recv == nil {
+			panic(core.Infra("E11.break-width: no linebreaker variable in " + fname))
+		}
+		r.Func("text." + fname)
+		k := 0
+		var visit func(list []ast.Stmt, overflow bool)
+		checkLit := func(cl *ast.CompositeLit, list []ast.Stmt, overflow bool) {
+			var width, pos ast.Expr
+			for _, el := range cl.Elts {
+				if kv, ok := el.(*ast.KeyValueExpr); ok {
+					if k, ok := kv.Key.(*ast.Ident); ok {
+						switch k.Name {
+						case "Width":
+							width = kv.Value
+						case "Position":
+							pos = kv.Value
+						}
+					}
+				}
+			}
+			if width == nil || pos == nil {
+				return
+			}
+			n++
+			k++
+			key := fmt.Sprintf("text.%s|Breakpoint #%d|Width", fname, k)
+			if overflow {
+				r.OK("E11.break-width", key, c.Pos(cl.Pos()), "overflow break: Overflows is reported")
+				return
+			}
+			id, ok := core.Unparen(width).(*ast.Ident)
+			if !ok {
+				r.Fail("E11.break-width", key, c.Pos(cl.Pos()), fmt.Sprintf("the Width of a feasible break is %s, not a local holding W plus the guarded penalty width", types.ExprString(width)))
+				return
+			}
+			v := core.ObjOf(info, id)
+			// v := recv.W in an enclosing list, followed by the guarded addition on the Position index
+			defined := false
+			var addIdx string
+			ast.Inspect(fd.Body, func(m ast.Node) bool {
+				if blk, ok := m.(*ast.BlockStmt); ok {
+					for _, s := range blk.List {
+						if as, ok := s.(*ast.AssignStmt); ok && as.Tok == token.DEFINE && len(as.Lhs) == 1 && len(as.Rhs) == 1 {
+							if l, ok := as.Lhs[0].(*ast.Ident); ok && core.ObjOf(info, l) == v && isField(as.Rhs[0], recv, "W") {
+								defined = true
+								if ix, ok := penaltyAdd(blk.List, recv, v); ok {
+									addIdx = ix
+								}
+							}
+						}
+					}
+				}
+				return true
+			})
+			pid, _ := core.Unparen(pos).(*ast.Ident)
+			switch {
+			case !defined:
+				r.Fail("E11.break-width", key, c.Pos(cl.Pos()), "the Width local is not initialised from the running sum W")
+			case addIdx == "":
+				r.Fail("E11.break-width", key, c.Pos(cl.Pos()), "the width recorded for the break does not add the penalty's width when the break item is a penalty: a line broken at a soft hyphen is one hyphen wider than recorded, so right-aligned and centred lines are misplaced and stick out of the box while Overflows is false")
+			case pid == nil || addIdx != "param:"+itoaObj(info, pid):
+				r.Fail("E11.break-width", key, c.Pos(cl.Pos()), "the penalty width is taken from a different item than the break's Position")
+			default:
+				r.OK("E11.break-width", key, c.Pos(cl.Pos()), "Width = W + penalty width of item Position")
+			}
+		}
+		visit = func(list []ast.Stmt, overflow bool) {
+			for _, s := range list {
+				if as, ok := s.(*ast.AssignStmt); ok && len(as.Lhs) == 1 && len(as.Rhs) == 1 {
+					if id, ok := as.Lhs[0].(*ast.Ident); ok && id.Name != "_" {
+						if rid, ok := as.Rhs[0].(*ast.Ident); ok && rid.Name == "true" {
+							if o := core.ObjOf(info, id); o != nil && isOverflowFlag(info, fd, o) {
+								overflow = true
+							}
+						}
+					}
+				}
+				ast.Inspect(s, func(m ast.Node) bool {
+					switch x := m.(type) {
+					case *ast.BlockStmt:
+						visit(x.List, overflow)
+						return false
+					case *ast.CompositeLit:
+						if t := info.TypeOf(x); t != nil {
+							if nt, ok := t.(*types.Named); ok && nt.Obj().Name() == "Breakpoint" {
+								checkLit(x, list, overflow)
+							}
+						}
+					}
+					return true
+				})
+			}
+		}
+		visit(fd.Body.List, false)
+	}
+	r.Count("E11.break-width-literals", n)
+	r.Floor("E11.break-width-literals", 2)
+}
+
+// isOverflowFlag: the variable is the one the linebreaker returns/stores as its overflow indication
+// (assigned `true` only in the no-feasible-solution branch): identified as a bool local of mainLoop
+// that is stored into a field or returned.
+func isOverflowFlag(info *types.Info, fd *ast.FuncDecl, o types.Object) bool {
+	v, ok := o.(*types.Var)
+	if !ok {
+		return false
+	}
+	b, ok := v.Type().Underlying().(*types.Basic)
+	return ok && b.Kind() == types.Bool
+}
+
+func itoaObj(info *types.Info, id *ast.Ident) string {
+	o := core.ObjOf(info, id)
+	if o == nil {
+		return "?"
+	}
+	return fmt.Sprintf("%p", o)
 }
